@@ -39,13 +39,13 @@ def check(ctx: Ctx, rep: Report, thorough: bool = False):
     total_states = total_paths = 0
     for famname in ("ET", "DT"):
         fam = family_ctx(ctx, famname)
-        st0 = fam.initial_state()
         seen_states: Dict = {}
         for cfg in fam.configurations(thorough):
-            for oc in fam.replay("read_device_info", st0, cfg):
-                if oc.end == "raise":
-                    continue
-                seen_states.setdefault((runtime_cfg_key(fam, cfg), project(fam, oc.state)), (cfg, oc.state))
+            for st0 in fam.initial_states():
+                for oc in fam.replay("read_device_info", st0, cfg):
+                    if oc.end == "raise":
+                        continue
+                    seen_states.setdefault((runtime_cfg_key(fam, cfg), project(fam, oc.state)), (cfg, oc.state))
         rep.analysed_add("space", "%s: %d (configuration, state after read_device_info) pairs" % (famname, len(seen_states)))
         optional = optional_commands(fam)
         rep.analysed_add("optional_blocks", "%s: %s" % (famname, sorted(optional)))
